@@ -14,7 +14,13 @@ class Ctx:
         self.idx = idx
         self.fi = fi
         self.t = dsl.extract(fi, idx, no_inline=no_inline)
-        self.nctx = self.t.ctx(idx.enums, property_aliases(idx, fi.cls))
+        aliases = dict(property_aliases(idx, fi.cls))
+        if fi.cls is not None and fi.name != "__init__" and fi.cls.method("__init__") is not None:
+            try:
+                aliases.update(constructor_facts(idx, fi.cls, aliases))
+            except Exception:
+                pass
+        self.nctx = self.t.ctx(idx.enums, aliases)
         self.w = dl.Widths(idx, fi.cls, self.t, extra_bits)
         self.eng = dl.Engine(self.w, self.nctx)
         self.groups, self.tir = {}, {}
@@ -98,6 +104,52 @@ def property_aliases(idx, cls):
                         e = e[1]
                     if e == ('name', 'self') and v != ('name', 'self'):
                         out.setdefault(('attr', ('name', 'self'), name), v)
+    return out
+
+
+PURE_FUNCS = {"exact_log2", "ceil_log2", "max", "min", "len", "int", "bool", "abs"}
+
+
+def constructor_facts(idx, cls, prop_aliases):
+    """Facts established by __init__ that elaborate() may rely on, as rewrite rules:
+      self._x            -> the pure arithmetic expression stored there (a cached ratio, width, ...)
+      len(self.<port>.sel) -> data_width // granularity of the signature the port was declared with
+    Constructor parameters that are stored verbatim (self._a = p) are written as self._a so both sides agree."""
+    cc = get_ctor(idx, cls)
+    param_to_attr = {}
+    for key, (val, gen, ln) in cc.stores.items():
+        if val[0] == 'name' and val[1] in cc.fi.params and key.startswith("self._") and key.count(".") == 1:
+            param_to_attr[val] = ir.parse(key)
+
+    def in_self_terms(e):
+        return ir.norm(ir.subst(e, lambda x: param_to_attr.get(x)), ir.NormCtx(enums=idx.enums, aliases=prop_aliases))
+
+    def pure(e):
+        for x in ir.walk(e):
+            if x[0] in ('obj', 'sig', 'opaque', 'fstr', 'gen', 'dict', 'list', 'tuple', 'set'):
+                return False
+            if x[0] == 'call' and not (x[1][0] == 'name' and x[1][1] in PURE_FUNCS):
+                return False
+        return any(x[0] in ('bin', 'lin', 'nary', 'call', 'ceildiv') for x in ir.walk(e))
+    out = {}
+    for key, (val, gen, ln) in cc.stores.items():
+        if key.startswith("self._") and key.count(".") == 1 and pure(val):
+            out[ir.parse(key)] = in_self_terms(val)
+    for name, decls in idx.members(cls).items():
+        flow, shape, conds, ln, arr = decls[0]
+        # the shape as the constructor computed it (locals substituted)
+        shape_ir = None
+        for e, gen, dsl_, ln2 in cc.t.calls:
+            for x in ir.walk(e if e[0] != 'store' else e[2]):
+                if x[0] == 'dict':
+                    for k_, v_ in x[1]:
+                        if k_ == ('const', name) and v_[0] == 'call' and v_[2]:
+                            shape_ir = v_[2][0]
+        if shape_ir is not None and shape_ir[0] == 'call':
+            dw, gr = kwarg(shape_ir, 'data_width'), kwarg(shape_ir, 'granularity')
+            if dw is not None and gr is not None:
+                port = ('attr', ('name', 'self'), name)
+                out[('call', ('name', 'len'), (('attr', port, 'sel'),), ())] = in_self_terms(('bin', '//', dw, gr))
     return out
 
 
@@ -228,10 +280,15 @@ def func_site(fi):
     return fi.site
 
 
-def find_init_assign(cls, attr):
-    """ast.Assign of `self.<attr> = ...` in cls.__init__ (first), or None."""
+def find_init_assign(cls, attr, idx=None):
+    """ast.Assign of `self.<attr> = ...` in cls.__init__ (first), or in a base class's __init__; or None."""
     init = cls.method("__init__")
     if init is None:
+        if idx is not None:
+            for b in idx.bases_of(cls):
+                r = find_init_assign(b, attr)
+                if r is not None:
+                    return r
         return None
     for st in ast.walk(init.node):
         if isinstance(st, ast.Assign) and len(st.targets) == 1:
@@ -239,6 +296,11 @@ def find_init_assign(cls, attr):
             if isinstance(t, ast.Attribute) and isinstance(t.value, ast.Name) and t.value.id == "self" \
                     and t.attr == attr:
                 return st
+    if idx is not None:
+        for b in idx.bases_of(cls):
+            r = find_init_assign(b, attr)
+            if r is not None:
+                return r
     return None
 
 
